@@ -3,6 +3,7 @@ package core
 import (
 	"errors"
 	"fmt"
+	"sort"
 	"strings"
 
 	schema "github.com/jsightapi/jsight-schema-core"
@@ -253,10 +254,11 @@ func (*JApiCore) getPropertiesNames(m map[string]ischema.Node) string {
 		return ""
 	}
 
-	buf := strings.Builder{}
+	// The names are sorted, otherwise the error message would depend on the map iteration order.
+	names := make([]string, 0, len(m))
 	for k := range m {
-		buf.WriteString(k)
-		buf.WriteString(", ")
+		names = append(names, k)
 	}
-	return strings.TrimSuffix(buf.String(), ", ")
+	sort.Strings(names)
+	return strings.Join(names, ", ")
 }
